@@ -44,6 +44,13 @@ func (w *Waiter) Wait(ctx context.Context) (ok bool) {
 	waitFor := next.Sub(w.lastNow)
 	if waitFor <= 0 {
 		w.overdueDuration = 0 - waitFor
+		if w.overdueDuration < MaxOverdueDuration {
+			// The cached reading is as old as everything done since it was taken (the shoots
+			// of a slow target), so it understates how late the event is. Unless it already
+			// proves that the event is out of the overdue window, ask the real clock.
+			w.lastNow = time.Now()
+			w.overdueDuration = w.lastNow.Sub(next)
+		}
 		return true
 	}
 	w.lastNow = time.Now()
